@@ -194,3 +194,16 @@ Theorem C06_engine_no_creation_when_quiet : forall sp s e,
   EngineSafety.ntasks (fst (Engine.step sp s e)) = EngineSafety.ntasks s.
 Proof. exact EngineMore.quiet_no_creation. Qed.
 Print Assumptions C06_engine_no_creation_when_quiet.
+
+(* duplicated deliveries never hang a run: with any number of messages delivered once more at any points
+   (and pause / resume / stop), a join-free run with nothing pending has only final task executions and
+   a completed or PAUSED workflow *)
+Require Import Mistral.Proofs.EngineLive.
+Theorem C06_duplicates_never_hang_joinfree : forall sp, EngineLive.nojoin sp -> forall u evs,
+  forallb EngineLive.live_ev evs = true ->
+  let s := Engine.run sp u evs in
+  Engine.wf_created s = true -> Engine.pend s = [] ->
+  (forall tid r, nth_error (Engine.tasks s) tid = Some r -> Gen.States.is_completed (Engine.t_state r) = true) /\
+  (Gen.States.is_completed (Engine.wf_state s) = true \/ Engine.wf_state s = Gen.States.PAUSED).
+Proof. exact EngineLive.no_stuck_joinfree. Qed.
+Print Assumptions C06_duplicates_never_hang_joinfree.
